@@ -9,7 +9,7 @@ Definition good_link (e : env) (base : str) (canonicalize strip_fragment : bool)
   l <> base /\
   exists href resolved,
     In href hrefs /\ should_follow_href href = true /\
-    (if has_protocol href then resolved = href else urljoin e base href = Ok resolved) /\
+    (if keeps_own_scheme href then resolved = href else urljoin e base href = Ok resolved) /\
     is_url e link_opts resolved = Ok true /\
     (if canonicalize then canonicalize_url e resolved (lit "https") false strip_fragment = Ok l else l = resolved).
 
@@ -25,7 +25,7 @@ Proof.
       split; [exact Hne|]. exists href, res. repeat split; auto. right. exact A. }
     destruct (is_empty h); [eapply Hskip; eauto|].
     destruct (should_follow_href h) eqn:Ef; cbn [negb] in H; [|eapply Hskip; eauto].
-    destruct (if has_protocol h then Ok h else urljoin e base h) as [url|x] eqn:Eu; cbn [bind] in H; [|discriminate].
+    destruct (if keeps_own_scheme h then Ok h else urljoin e base h) as [url|x] eqn:Eu; cbn [bind] in H; [|discriminate].
     destruct (is_url e link_opts url) as [[|]|x] eqn:Ei; cbn [bind negb] in H; try discriminate; [|eapply Hskip; eauto].
     destruct (if c then canonicalize_url e url (lit "https") false sf else Ok url) as [cu|x] eqn:Ec; cbn [bind] in H; [|discriminate].
     destruct (str_eqb cu base) eqn:Eb; [eapply Hskip; eauto|].
@@ -35,7 +35,7 @@ Proof.
     + split.
       * intros ->. rewrite str_eqb_refl in Eb. discriminate.
       * exists h, url. split; [left; reflexivity|]. split; [exact Ef|]. split.
-        -- destruct (has_protocol h); [injection Eu as <-; reflexivity|exact Eu].
+        -- destruct (keeps_own_scheme h); [injection Eu as <-; reflexivity|exact Eu].
         -- split; [exact Ei|]. destruct c; [exact Ec|injection Ec as <-; reflexivity].
     + destruct (IH _ _ Er l Hin) as (Hne & href & res & A & B & C & D & E).
       split; [exact Hne|]. exists href, res. repeat split; auto. right. exact A.
@@ -51,7 +51,7 @@ Proof.
   - cbn [links_go] in H.
     destruct (is_empty h); [eapply IH; eauto|].
     destruct (should_follow_href h); cbn [negb] in H; [|eapply IH; eauto].
-    destruct (if has_protocol h then Ok h else urljoin e base h) as [url|x]; cbn [bind] in H; [|discriminate].
+    destruct (if keeps_own_scheme h then Ok h else urljoin e base h) as [url|x]; cbn [bind] in H; [|discriminate].
     destruct (is_url e link_opts url) as [[|]|x]; cbn [bind negb] in H; try discriminate; [|eapply IH; eauto].
     destruct (if c then canonicalize_url e url (lit "https") false sf else Ok url) as [cu|x]; cbn [bind] in H; [|discriminate].
     destruct (str_eqb cu base); [eapply IH; eauto|].
